@@ -183,8 +183,15 @@ def judge_shard(ctx, sid, lines, state):
         rounds += 1
         f = os.path.join(ctx.work, "gb-shard-%03d-%d.ndjson" % (sid, rounds))
         write_ndjson(f, remaining)
-        r = ctx.tlc(ENGINE, "GroupBalCheck", "GroupBalCheck.cfg", workers=1, timeout=state["timeout"],
-                    env={"GBLINES": f, "JAVA_TOOL_OPTIONS": JVM_OPTS}, extra=["-noGenerateSpecTE"], tag="gb-%03d-%d" % (sid, rounds))
+        for attempt in (1, 2, 3):
+            r = ctx.tlc(ENGINE, "GroupBalCheck", "GroupBalCheck.cfg", workers=1, timeout=state["timeout"],
+                        env={"GBLINES": f, "JAVA_TOOL_OPTIONS": JVM_OPTS}, extra=["-noGenerateSpecTE"],
+                        tag="gb-%03d-%d-%d" % (sid, rounds, attempt))
+            if r["violated"] or not (r["error"] or r["timeout"]):
+                break
+            # a JVM that died without a verdict (killed, resource shortage) is run again; the verdict is never guessed
+            ctx.log("TLC run of shard %d ended without a verdict (rc=%s), attempt %d" % (sid, r["rc"], attempt))
+            state["tlc_retries"] += 1
         state["tlc_runs"] += 1
         state["tlc_wall"] += r["wall"]
         gen += r["generated"]
@@ -207,7 +214,7 @@ def judge_shard(ctx, sid, lines, state):
             remaining = remaining[k:]
             continue
         if r["error"] or r["timeout"] or r["postcondition_failed"]:
-            raise Inconclusive("TLC judge run failed (shard %d): %s" % (sid, r["error"] or r["out"][-1500:]))
+            raise Inconclusive("TLC judge run failed (shard %d, rc=%s): %s" % (sid, r["rc"], (r["error"] or r["out"])[-1500:]))
         m = re.search(r'"GBSTATS",\s*\[(.*?)\]', r["out"], re.S)
         if not m:
             raise Inconclusive("TLC judge run printed no GBSTATS (shard %d): %s" % (sid, r["out"][-1500:]))
@@ -279,7 +286,7 @@ def run(ctx):
         shards[j].append(k)
         load[j] += cost(lines[k])
     shards = [[lines[k] for k in sorted(s)] for s in shards if s]
-    state = {"lock": threading.Lock(), "nviol": 0, "stop": False, "tlc_runs": 0, "tlc_wall": 0.0,
+    state = {"lock": threading.Lock(), "nviol": 0, "stop": False, "tlc_runs": 0, "tlc_retries": 0, "tlc_wall": 0.0,
              "timeout": 300 if tier == "quick" else 1500}
     ctx.specdir(ENGINE)            # create the scratch copy before the threads start
     tj = time.time()
@@ -380,7 +387,7 @@ def run(ctx):
         "clause_evaluations_on_accepted_runs": evals,
         "violated_lines_found_per_clause": per_clause, "violations_reported": min(len(viols), MAX_REPORTED),
         "exact_rule_counts_not_judged": stats,
-        "tlc_runs": state["tlc_runs"], "tlc_seconds_summed": round(state["tlc_wall"], 1),
+        "tlc_runs": state["tlc_runs"], "tlc_runs_repeated_after_jvm_failure": state["tlc_retries"], "tlc_seconds_summed": round(state["tlc_wall"], 1),
         "exhaustive_small_scope": tier == "thorough",
         "rule": ("thorough: every non-empty member set of {a,b,c,d} in every listing order x every subscription map over {t,u} x 0..5 partitions per "
                  "topic x {ordered, shuffled} for range and roundrobin; rack: 1..3 members in every listing order x racks {'',r1,r2}^members x "
